@@ -28,6 +28,7 @@ TRUST = [
 ASSUMPTIONS = ["lattices of C01's input space: indices in range, no self-loops, generic vertex positions",
                "plaquette-table theorems: no directed edge lies in two plaquettes (C01), plaquette walks are closed walks without a repeated edge"]
 
+MODEL_MAX_V = 300      # the extracted model (unary nat, lists) is quadratic; larger lattices get S only (counted)
 OPS = ["plaquettes", "n_plaquettes", "edges.adjacent_plaquettes", "vertices.adjacent_plaquettes"]
 ALL_ORDERS = [list(p) for p in itertools.permutations(range(4))]
 
@@ -518,16 +519,16 @@ def work(item):
                 out["violations"].append(("access-order", what))
                 break
         # model's state machine on the same history: every value is the history-free one
-        if hi < len(m["hist"]) and any(t != "=" for t in m["hist"][hi]):
+        if m is not None and hi < len(m["hist"]) and any(t != "=" for t in m["hist"][hi]):
             out["kmis"].append(f"model cache run returned a history-dependent value on {ops}")
     have_plaq = not any(isinstance(x, dict) for x in vals0)
-    if m["hyp"] is False:
+    if m is not None and m["hyp"] is False:
         out["kmis"].append(f"{variant}: hypothesis plaq_list_ok of the plaquette-table theorems is false on the model's plaquette list")
     R = full_report(lat0, have_plaq)
     for key, what in spec_tables(P, S, edges, crossing, vals0, R, tolv):
         out["violations"].append((key, f"{variant}: {what}"))
     bm = beta_margin(P, edges, crossing, S)
-    diffs = compare_model(m, S, vals0, R, tolv, bm >= (1e-9 if variant == "fresh" else 1e-5))
+    diffs = compare_model(m, S, vals0, R, tolv, bm >= (1e-9 if variant == "fresh" else 1e-5)) if m is not None else []
     if diffs:
         out["kmis"].append(f"{variant}: {diffs[:4]}")
     pl = vals0[0] if not isinstance(vals0[0], dict) else []
@@ -573,7 +574,8 @@ def prep(args):
         # the model's own cache run (history independence is a theorem; this only re-checks the extracted [run]) on small lattices
         mh = hists if len(pos) <= 60 else []
         out["lines"].append("c02 " + line + f" {want_adjm} {len(mh)} " + " ".join(f"{len(h)} " + " ".join(map(str, h)) for h in mh))
-        out["items"].append({"arr": arr, "variant": variant, "hists": hists, "S": S, "case": c, "full": full, "arr_v": arr_v})
+        out["items"].append({"arr": arr, "variant": variant, "hists": hists, "S": S, "case": c, "full": full, "arr_v": arr_v,
+                             "want_model": len(pos) <= MODEL_MAX_V})
     return out
 
 
@@ -597,8 +599,12 @@ def evaluate(ctx, cases, label, n_full=60, force_full=False):
             res.violation(key_, what, c)
         items += pr["items"]
         lines += pr["lines"]
-    outs = run_driver_parallel(ctx.exe["c02"], lines)
-    for it, o in zip(items, outs):
+    sel = [i for i, it in enumerate(items) if it["want_model"]]
+    outs = run_driver_parallel(ctx.exe["c02"], [lines[i] for i in sel])
+    for it in items:
+        it["model"] = None
+    for i, o in zip(sel, outs):
+        it = items[i]
         it["model"] = parse_model(o, it["S"])
         if "error" in it["model"]:
             raise RuntimeError(f"driver error {it['model']['error']} on {it['case']}")
@@ -613,7 +619,10 @@ def evaluate(ctx, cases, label, n_full=60, force_full=False):
         st = r["stats"]
         key = digest([it["arr_v"][0].tolist(), it["arr_v"][1].tolist(), it["arr_v"][2].tolist()]) if st["npl"] >= 1 else None
         res.count(fam, key)
-        res.traces += 1
+        if it["model"] is not None:
+            res.traces += 1
+        else:
+            res.extra["lattices_S_only_(V>%d)" % MODEL_MAX_V] = res.extra.get("lattices_S_only_(V>%d)" % MODEL_MAX_V, 0) + 1
         for k in st["coord"]:
             cd[str(k)] = cd.get(str(k), 0) + 1
         for name, cond in (("lattices_with_isolated_highest_vertex", st["iso_last"]), ("lattices_with_isolated_vertex", 0 in st["coord"]),
@@ -622,9 +631,10 @@ def evaluate(ctx, cases, label, n_full=60, force_full=False):
             res.extra[name] = res.extra.get(name, 0) + int(bool(cond))
         res.extra["histories_run_on_impl"] = res.extra.get("histories_run_on_impl", 0) + st["hist"]
         mm = it["model"]
-        res.extra["model_plaquette_lists_satisfying_plaq_list_ok"] = res.extra.get("model_plaquette_lists_satisfying_plaq_list_ok", 0) + int(mm["hyp"] is True)
-        res.extra["vertices_total"] = res.extra.get("vertices_total", 0) + st["nV"]
-        res.extra["vertices_satisfying_generic_at"] = res.extra.get("vertices_satisfying_generic_at", 0) + mm["generic"]
+        if mm is not None:
+            res.extra["model_plaquette_lists_satisfying_plaq_list_ok"] = res.extra.get("model_plaquette_lists_satisfying_plaq_list_ok", 0) + int(mm["hyp"] is True)
+            res.extra["vertices_total(model run)"] = res.extra.get("vertices_total(model run)", 0) + st["nV"]
+            res.extra["vertices_satisfying_generic_at"] = res.extra.get("vertices_satisfying_generic_at", 0) + mm["generic"]
         for key_, what in r["violations"]:
             res.violation(key_, what, c)
         for what in r["kmis"]:
